@@ -1027,6 +1027,7 @@ fn app_op(c: &mut C) -> Result<(), Violation> {
                     [0xff, 0x02, 0, 0, 0, 0, 0, 0, 0, 0, 0x01, 0, 0, 0, 0, 1],
                     [0xff, 0x02, 0, 0, 0, 0, 0, 0, 0, 0, 0, 0, 0, 0, 0x01, 0xfb],
                 ]);
+                let g = if !c.s[i].groups.is_empty() && c.tape.draw(2) == 0 { c.s[i].groups[0] } else { g };
                 if !c.s[i].groups.contains(&g) {
                     let now = c.now;
                     let n = &mut c.s[i].node;
@@ -1038,6 +1039,15 @@ fn app_op(c: &mut C) -> Result<(), Violation> {
                         c.s[i].groups.push(g);
                         c.stats.inc("6lo.groups-joined");
                     }
+                } else {
+                    // already a member: the application leaves and joins again right away (before the interface is
+                    // polled) - it stays a member throughout
+                    let iface = &mut c.s[i].node.iface;
+                    guard("leave+join_multicast_group", || {
+                        let _ = iface.leave_multicast_group(Ipv6Address::from(g));
+                        let _ = iface.join_multicast_group(Ipv6Address::from(g));
+                    })?;
+                    c.stats.inc("6lo.group-left-and-rejoined");
                 }
             }
         }
